@@ -69,7 +69,9 @@ Create(nm) == On("create") /\ Size(st) < MaxN
               /\ Step(NewNode(st, nm), O("create", <<nm>>, Size(st) + 1, TRUE))
 
 AddChild(p, c, i) ==
-  /\ On("add_child") /\ CanAttach(K, p, c) /\ (i = NOIDX \/ (On("insert") /\ i \in 0..Len(K[p])))
+  /\ On("add_child") /\ CanAttach(K, p, c)
+  /\ (i = NOIDX \/ (On("insert") /\ i \in 0..Len(K[p]))
+               \/ (On("insert_py") /\ Len(K[p]) <= 2 /\ i \in (-(2 * Len(K[p]) + 3)..-2) \cup {Len(K[p]) + 1, Len(K[p]) + 2}))     \* Python's negative / beyond-the-end indexes
   /\ Step(AddChildF(st, p, c, i), O("add_child", <<p, c, i>>, NULL, TRUE))
 RemoveChild(p, c) ==
   /\ On("remove_child") /\ Has(K[p], c)
@@ -124,7 +126,7 @@ Next == TLCGet("level") < MaxLevel /\
   \/ \E nm \in NameSet : Create(nm)
   \/ \E kind \in {"xml", "json", "json-null-ids", "legacy-json"}, shape \in ImportShapes : Import(kind, shape)     \* a JSON document may leave ids null: fresh ids are made
   \/ \E p, c \in Nodes :
-       \/ \E i \in {NOIDX} \cup (0..MaxN) : AddChild(p, c, i)
+       \/ \E i \in (-(2 * MaxN + 3))..(MaxN + 2) : AddChild(p, c, i)
        \/ RemoveChild(p, c) \/ RemoveChildFail(p, c)
        \/ \E dir \in {"L", "R"}, sib \in BOOLEAN : Shift(p, c, dir, sib) \/ ShiftFail(p, c, dir, sib)
        \/ \E n \in Nodes : (\E del \in BOOLEAN : ReplaceChild(p, c, n, del)) \/ ReplaceChildFail(p, c, n) \/ ReplaceChildFailUnregistered(p, c, n)
